@@ -11,7 +11,7 @@ from hypothesis import strategies as st
 from ..driver import Clause, Outcome
 from ..env import worker_tmp
 from ..langgen import languages, lang_classes
-from ..modelgen import build_language, assoc_class_name, defenses_of
+from ..modelgen import build_language, assoc_class_name, defenses_of, resolve_spec, corelang_pool
 from ..modelstate import typed_state, pairwise_links, entry_point_set
 from ..ref_lang import Lang
 
@@ -33,7 +33,7 @@ ASSUMPTIONS = ['sCAD cannot express attacker names, multi-member association obj
 
 
 def native_file(case, per_pair=False):
-    spec = case['spec']
+    spec = case['_spec']
     assets = {}
     for a in case['assets']:
         e = {'name': a['name'], 'type': a['type']}
@@ -59,7 +59,7 @@ def native_file(case, per_pair=False):
 
 
 def legacy_0_0_39(case, old_spelling):
-    spec = case['spec']
+    spec = case['_spec']
     assets = {}
     for a in case['assets']:
         e = {'name': a['name'], 'metaconcept': a['type']}
@@ -80,7 +80,7 @@ def legacy_0_0_39(case, old_spelling):
 
 
 def scad_archive(case, path, orient):
-    spec = case['spec']
+    spec = case['_spec']
     L = Lang(spec)
     root = ET.Element('com.foreseeti.kernalCAD_XMIObjectModel')
     for a in case['assets']:
@@ -145,7 +145,10 @@ def check_case(case) -> Outcome:
     from maltoolbox.model import Model
     from maltoolbox.translators import securicad, updater
     out = Outcome()
-    spec = case['spec']
+    spec = resolve_spec(case)
+    if spec is None:
+        return out
+    case = dict(case, _spec=spec)
     L = Lang(spec)
     enc = ['0.0.39-json', '0.0.39-yaml', 'scad'][case['enc'] % 3]
     out.classes.append('enc:' + enc)
@@ -225,8 +228,14 @@ def check_case(case) -> Outcome:
 
 
 @st.composite
-def cases(draw):
-    spec = draw(languages(max_assets=5, min_assets=2, max_expr_depth=1, arith_ttc=False, deep_chains=draw(st.booleans())))
+def cases(draw, corelang=False):
+    pool = None
+    if corelang:
+        from ..modelgen import _restrict, shipped_spec
+        pool = draw(corelang_pool(2, 4))
+        spec = _restrict(shipped_spec(), pool)
+    else:
+        spec = draw(languages(max_assets=5, min_assets=2, max_expr_depth=1, arith_ttc=False, deep_chains=draw(st.booleans())))
     L = Lang(spec)
     concrete = L.concrete()
     n = draw(st.integers(1, 6))
@@ -269,10 +278,12 @@ def cases(draw):
             steps = L.step_names(t)
             eps.append([x, draw(st.lists(st.sampled_from(steps), min_size=1, max_size=min(3, len(steps)), unique=True))])
         atts.append({'id': aid, 'name': f'Attacker:{aid}', 'entry_points': eps})
-    return {'spec': spec, 'assets': assets, 'links': links, 'attackers': atts, 'enc': enc,
-            'orient': draw(st.lists(st.integers(0, 1), min_size=1, max_size=5))}
+    head = {'lang': 'corelang', 'pool': pool} if corelang else {'spec': spec}
+    return dict(head, assets=assets, links=links, attackers=atts, enc=enc,
+                orient=draw(st.lists(st.integers(0, 1), min_size=1, max_size=5)))
 
 
 CLAUSES = [
     Clause('legacy-vs-native', check_case, kind='random', strategy=cases, budget={'quick': 6000, 'thorough': 50000}),
+    Clause('corelang', check_case, kind='random', strategy=lambda: cases(corelang=True), budget={'quick': 320, 'thorough': 4000}),
 ]
